@@ -70,6 +70,9 @@ type Out struct {
 	// C10 (metricsprog.go, accesses.go)
 	MetricsProgs  []*MProg            `json:"metrics_progs"`
 	MetricsFields map[string][]string `json:"metrics_fields"`
+	Accesses      []AccessSite        `json:"accesses"`
+	Cells         []CellInfo          `json:"cells"`
+	AccessNotes   []string            `json:"access_notes"`
 }
 
 func main() {
@@ -129,6 +132,7 @@ func main() {
 	}
 	globals(prog, pkgs, out)
 	metricsProgs(byPath, out)
+	accesses(prog, pkgs, out)
 
 	b, _ := json.MarshalIndent(out, "", " ")
 	if err := os.WriteFile(*outJSON, b, 0o644); err != nil {
